@@ -352,6 +352,11 @@ fn random_history(t: &mut Tape, gates: &Gates) -> Vec<Note> {
             if t.ratio(1, 10) {
                 docs[u].push((*t.pick(&["", " ", "\n", "(* only a comment *)", "?", "(* never closed", ";"])).to_string());
             }
+            // ... the same text moved (blank lines / a comment in front: every position after it
+            // changes, the library does not) ...
+            if t.ratio(1, 3) {
+                docs[u].push(format!("{}{}", *t.pick(&["\n", "\n\n\n", "(* moved *)\n", "   ", "(* a\nb *) "]), text));
+            }
             // ... and every text also without / with more trailing blank space
             if t.ratio(1, 3) {
                 docs[u].push(text.trim_end().to_string());
